@@ -111,6 +111,19 @@ def gen_param_design(c, uid):
     a, b = c.sample(range(3, 60), 2)
     inst8.append("P_%s(Bits8, 1, lst=list(range(%d)) + [%d])" % (uid, m, a))
     inst8.append("P_%s(Bits8, 1, lst=list(range(%d)) + [%d])" % (uid, m, b))
+  lists = []
+  if c.random() < 0.4:
+    # LISTS (1-D / 2-D) of one class with different parameter values per element: the instantiation site
+    # must use each element's own module
+    n = c.randint(2, 4)
+    ks = [c.choice([1, 2, 3, 5]) for _ in range(n)]
+    if len(set(ks)) == 1:
+      ks[-1] = ks[0] + 1
+    cls = c.choice(["P_%s(Bits8, %%d)" % uid, "R_%s(8, %%d)" % uid, "R_%s(8, mult=%%d)" % uid, "Q_%s(8, %%d)" % uid])
+    if c.random() < 0.3 and n == 4:
+      lists.append("[[%s, %s], [%s, %s]]" % tuple(cls % k for k in ks))
+    else:
+      lists.append("[%s]" % ", ".join(cls % k for k in ks))
   L = []
   # parameter overrides through set_param next to instances that keep the constructor-call value: the
   # effective value (not the call's) must name the module
@@ -127,7 +140,14 @@ def gen_param_design(c, uid):
     L.append("    s.b%d = %s" % (i, e))
     L.append("    s.b%d.in_ //= s.in16" % i)
     L.append("    s.outs16[%d] //= s.b%d.out" % (i, i))
-  return PARAM_SRC.format(uid=uid, n8=len(inst8), n16=len(inst16), body="\n".join(L))
+  nl = 0
+  for j, e in enumerate(lists):
+    L.append("    s.lst%d = %s" % (j, e))
+    L.append("    for i_, m_ in enumerate(sum(s.lst%d, []) if isinstance(s.lst%d[0], list) else s.lst%d):" % (j, j, j))
+    L.append("      m_.in_ //= s.in_")
+    L.append("      s.outs[%d + i_] //= m_.out" % (len(inst8) + nl))
+    nl += e.count("_%s(" % uid)
+  return PARAM_SRC.format(uid=uid, n8=len(inst8) + nl, n16=len(inst16), body="\n".join(L))
 
 
 PROBES13 = {
